@@ -124,11 +124,11 @@ WRITE_OPS = ['put_abs', 'put', 'insert_abs', 'insert', 'fill_region', 'fill', 'e
              'erase_start_of_line', 'erase_line', 'erase_down', 'erase_up', 'erase_screen']
 
 
-@obligation(params=dict(op=Int(0, 11), a=Int(), b=Int(), c=Int(), d=Int(), **_STATE),
-            tags={2 + k: n for k, n in enumerate(WRITE_OPS)}, timeout=900, split=('op',), thorough=dict(_THOROUGH, params=dict(_THOROUGH['params'], asb=Bool())),
-            note='(thorough: the character also given as a byte) cell-writing operations: exactly the documented cells change, the cursor, saved cursor and scroll '
+@obligation(params=dict(op=Int(0, 11), a=Int(), b=Int(), c=Int(), d=Int(), multi=Bool(), **_STATE),
+            tags={2 + k: n for k, n in enumerate(WRITE_OPS)}, timeout=900, split=('op', 'multi'), thorough=dict(_THOROUGH, params=dict(_THOROUGH['params'], asb=Bool()), split=('shape', 'op', 'multi')),
+            note='(multi: the character argument is a two-character string - only its first character is written, as put_abs documents by use; thorough: also given as bytes) cell-writing operations: exactly the documented cells change, the cursor, saved cursor and scroll '
                  'region do not')
-def W1_writes(op, a, b, c, d, cr, cc, rs, re, sr, sc, shape=0, asb=False):
+def W1_writes(op, a, b, c, d, cr, cc, rs, re, sr, sc, shape=0, asb=False, multi=False):
     _set_shape(pick(shape, 0, 4))
     if _off_screen(cr, cc, rs, re, sr, sc):
         return SKIP
@@ -143,8 +143,16 @@ def W1_writes(op, a, b, c, d, cr, cc, rs, re, sr, sc, shape=0, asb=False):
         class _B:
             def __getattr__(self, name):
                 f = getattr(real, name)
-                return lambda *args: f(*[(b'X' if (type(v) is str and v == 'X') else v) for v in args])
+                return lambda *args: f(*[((b'XY' if multi else b'X') if (type(v) is str and v == 'X') else v) for v in args])
         s = _B()
+    elif multi:
+        real = s
+
+        class _M:
+            def __getattr__(self, name):
+                f = getattr(real, name)
+                return lambda *args: f(*[('XY' if (type(v) is str and v == 'X') else v) for v in args])
+        s = _M()
     if op == 0:
         s.put_abs(a, b, X)
         g[clamp(a, 1, ROWS) - 1][clamp(b, 1, COLS) - 1] = X
@@ -191,7 +199,7 @@ def W1_writes(op, a, b, c, d, cr, cc, rs, re, sr, sc, shape=0, asb=False):
     else:
         s.erase_screen()
         fill_ref(g, 1, 1, ROWS, COLS, ' ')
-    if asb:
+    if asb or multi:
         s = real
     if not shape_ok(s) or not same(s, g):
         return 0
@@ -396,6 +404,7 @@ def dry_runs():
     st = dict(cr=2, cc=3, rs=1, re=3, sr=1, sc=1)
     for op in range(12):
         yield 'W1_writes', dict(op=op, a=2, b=9, c=-1, d=2, **st)
+        yield 'W1_writes', dict(op=op, a=2, b=9, c=-1, d=2, multi=True, **st)
     for op in range(13):
         yield 'W2_cursor', dict(op=op, a=2, b=1, **st)
     for op in range(7):
@@ -407,6 +416,7 @@ def dry_runs():
         for op in range(12):
             yield 'W1_writes', dict(op=op, a=2, b=9, c=-1, d=2, shape=shape, **one)
             yield 'W1_writes', dict(op=op, a=1, b=1, c=0, d=7, shape=shape, asb=True, **one)
+            yield 'W1_writes', dict(op=op, a=1, b=1, c=0, d=7, shape=shape, multi=True, **one)
         for op in range(7):
             yield 'W3_scroll', dict(op=op, a=0, b=9, shape=shape, **one)
         for op in range(6):
